@@ -1,7 +1,9 @@
 import DaskModel.DriverLib
 import DaskModel.Model.Chunks
+import DaskModel.Model.Creation
 open Dask
 open Dask.Chunks
+open Dask.Creation
 
 /-! Line-protocol handlers of group `chunks` (C23, C24, C27, C34). -/
 
@@ -109,7 +111,67 @@ def hGraphSize : Handler := handler fun args =>
     pure (SExp.ofNats [estimateGraphSize o n, numberOfBlocks o, numberOfBlocks n, largestBlockSize o, largestBlockSize n])
   | _ => none
 
+
+/-! ### C34 creation -/
+
+def encABlock (b : ABlock) : SExp := .list [.int b.start, .int b.stop, .int b.len]
+
+/-- `(arange start stop step (chunks…))` ↦ `(num ((bstart bstop len)…) ((values…)…))` | `(raised)` -/
+def hArange : Handler := handler fun args =>
+  match args with
+  | [a, b, s, cs] => do
+    let a ← a.toInt?
+    let b ← b.toInt?
+    let s ← s.toInt?
+    let cs ← cs.toNats?
+    match arangeNum a b s with
+    | none => pure (.list [.sym "raised"])
+    | some n => pure (.list [.int n, .list ((arangeBlocks a s 0 cs).map encABlock), encIntss (arangeValues a s cs)])
+  | _ => none
+
+/-- `(linspace startNum range endpoint (chunks…))` ↦ blocks as numerators over `div` and, per block, the
+    numerators of the values over `div * ldiv` together with `ldiv` -/
+def hLinspace : Handler := handler fun args =>
+  match args with
+  | [a, r, ep, cs] => do
+    let a ← a.toInt?
+    let r ← r.toInt?
+    let ep ← ep.toBool?
+    let cs ← cs.toNats?
+    let blks := linspaceBlocks r ep a cs
+    pure (.list (blks.map (fun b => .list [encABlock b, .int (linspaceDiv b.len ep),
+      SExp.ofInts ((List.range b.len).map (npLinspaceNum ep b))])))
+  | _ => none
+
+def encEyeCell (c : Bool × Int) : SExp := .list [SExp.ofBool c.1, .int c.2]
+
+/-- `(eye k (vchunks…) (hchunks…) N M)` ↦ `(table matrix)` -/
+def hEye : Handler := handler fun args =>
+  match args with
+  | [k, v, h] => do
+    let k ← k.toInt?
+    let v ← v.toNats?
+    let h ← h.toNats?
+    let tab := eyeTable k h 0 v
+    let n := Chunks.sum v
+    let m := Chunks.sum h
+    let mat := (List.range n).map (fun r => (List.range m).map (fun c => (eyeDen v h k r c).getD 99))
+    pure (.list [.list (tab.map (fun row => .list (row.map encEyeCell))), SExp.ofNatss mat])
+  | _ => none
+
+/-- `(diag (chunks…) (xs…))` ↦ matrix -/
+def hDiag : Handler := handler fun args =>
+  match args with
+  | [cs, xs] => do
+    let cs ← cs.toNats?
+    let xs ← xs.toInts?
+    let n := Chunks.sum cs
+    pure (encIntss ((List.range n).map (fun r => (List.range n).map (fun c => (diagDen (0 : Int) cs xs r c).getD 99))))
+  | _ => none
+
+
 def table : List (String × Handler) := [
+  ("arange", hArange), ("linspace", hLinspace), ("eye", hEye), ("diag", hDiag),
   ("normalize", hNormalize), ("blockdims", hBlockdims), ("intersect1d", hIntersect),
   ("old_to_new", hOldToNew), ("rechunk1d", hRechunk1d), ("divide_to_width", hDivide),
   ("merge_to_number", hMergeNum), ("graph_size", hGraphSize)]
